@@ -39,6 +39,17 @@ def distanceToSegment (sqrt : α → α) (x0 y0 x1 y1 x2 y2 : α) : α :=
     let yproj := pmin (pmax yproj y) Y
     sqrt ((x0 - xproj) * (x0 - xproj) + (y0 - yproj) * (y0 - yproj))
 
+/-- square-root-free specification of the same quantity (squared): squared distance from `(x0, y0)` to the
+point of the closed segment whose parameter is the orthogonal projection's, clamped to `[0, 1]`.
+Not code of tracklib: the executable form of the right-hand side of `dist_seg_spec`, run on `Rat` by the
+driver to cross-check the harness' oracle. -/
+def distSegSq (x0 y0 x1 y1 x2 y2 : α) : α :=
+  let l2 := (x2 - x1) * (x2 - x1) + (y2 - y1) * (y2 - y1)
+  if l2 == 0 then (x0 - x1) * (x0 - x1) + (y0 - y1) * (y0 - y1)
+  else
+    let t := pmax 0 (pmin (((x0 - x1) * (x2 - x1) + (y0 - y1) * (y2 - y1)) / l2) 1)
+    (x0 - (x1 + t * (x2 - x1))) * (x0 - (x1 + t * (x2 - x1))) + (y0 - (y1 + t * (y2 - y1))) * (y0 - (y1 + t * (y2 - y1)))
+
 /-- distance of fix `p` to the chord `[a, b]` as `douglas_peucker` calls it -/
 def distFix (sqrt : α → α) (a b p : Fix α) : α :=
   distanceToSegment sqrt p.x p.y a.x a.y b.x b.y
